@@ -2,6 +2,7 @@ package main
 
 import (
 	"fmt"
+	"go/ast"
 	"go/constant"
 	"go/token"
 	"go/types"
@@ -887,6 +888,7 @@ func (g *Gen) next(v *ssa.Next) {
 			g.oblige("reads", "range", "not-"+f.Key, []string{g.prop}, false, "false", v.Pos())
 		}
 	}
+	g.mapOrder(v, x)
 	has, val := g.mapHeaps(mt)
 	tt := v.Type().(*types.Tuple)
 	k := g.tupleComp(v, 1)
@@ -900,6 +902,37 @@ func (g *Gen) next(v *ssa.Next) {
 		}
 	}
 	g.guard(implies(okT, and(facts...)))
+}
+
+// mapOrder: a range over a Go map visits the keys in an unspecified order. When the loop body
+// (transitively, by the inferred frames of what it calls) modifies a heap the property declared
+// order-sensitive (the output sink), the iteration order is observable, so the loop carries the
+// obligation len(map) <= 1 (C11: rendering is repeatable).
+func (g *Gen) mapOrder(v *ssa.Next, x string) {
+	if len(g.orderHeaps) == 0 || g.pass != 2 || g.pass1 == nil {
+		return
+	}
+	h := v.Block().Index
+	if !g.heads[h] {
+		return
+	}
+	var hit []string
+	for _, n := range g.loopMods(h, g.pass1) {
+		for _, o := range g.orderHeaps {
+			if n == o {
+				hit = append(hit, n)
+			}
+		}
+	}
+	if len(hit) == 0 {
+		return
+	}
+	rng := v.Iter.(*ssa.Range)
+	txt := g.P.srcText(rng.Pos(), func(n ast.Node) bool { _, ok := n.(*ast.RangeStmt); return ok })
+	if i := strings.Index(txt, "{"); i > 0 {
+		txt = txt[:i]
+	}
+	g.oblige("maporder", txt, "writes-"+strings.Join(hit, "+"), []string{g.prop}, false, "(<= (maplen "+x+") 1)", v.Pos())
 }
 
 func isInvalid(t types.Type) bool {
